@@ -45,7 +45,7 @@ def gen_versions(rng):
         for i in range(ndef):
             ndx += 1
             parents = [DEFV[j] for j in range(i) if rng.random() < 0.6][-2:]
-            plan.append(dict(flags=rng.choice([0, 0, 0, 2]), ndx=ndx, names=[DEFV[i]] + parents))
+            plan.append(dict(flags=rng.choice([0, 0, 0, 2, 4, 6]), ndx=ndx, names=[DEFV[i]] + parents))
         for k, p in enumerate(plan):
             last = k == len(plan) - 1
             size = 20 + 8 * len(p['names'])
@@ -61,7 +61,7 @@ def gen_versions(rng):
         auxs = []
         for a in range(naux):
             ndx += 1
-            auxs.append(dict(name=rng.choice(NEEDV), flags=rng.choice([0, 0, 0, 2]), other=ndx))
+            auxs.append(dict(name=rng.choice(NEEDV), flags=rng.choice([0, 0, 0, 2, 4, 6]), other=ndx))
         last = f == nneed - 1
         vn += struct.pack(E + 'HHIII', 1, naux, so[LIBS[f]], 16, 0 if last else 16 + 16 * naux)
         for j, a in enumerate(auxs):
@@ -125,3 +125,62 @@ def gen_versions(rng):
     desc = dict(cls=cls, le=le, machine=machine, defs=[(p['ndx'], p['flags'], p['names']) for p in defs],
                 needs=[(n['file'], [(a['name'], a['flags'], a['other']) for a in n['aux']]) for n in needs], versym=vers)
     return img2, desc
+
+
+def gen_notes_file(rng):
+    """-> (image, description): note sections as linkers and assemblers write them - single-note sections and
+    sections holding several notes, GNU-owned and foreign owners."""
+    cls = rng.choice([32, 64])
+    le = rng.random() < 0.7
+    E = '<' if le else '>'
+    machine = rng.choice([62, 183]) if cls == 64 else rng.choice([3, 40])
+
+    def note(owner, typ, desc, al=4):
+        name = owner.encode() + b'\0'
+        rec = struct.pack(E + 'III', len(name), len(desc), typ) + name
+        rec += b'\0' * (-len(rec) % al) + desc         # padding is relative to the start of the note
+        return rec + b'\0' * (-len(rec) % al)
+
+    def one():
+        k = rng.choice(['build', 'abi', 'gold', 'foreign', 'foreign', 'go'])
+        if k == 'build':
+            return 'build-id', note('GNU', 3, bytes(rng.getrandbits(8) for _ in range(rng.choice([8, 16, 20]))))
+        if k == 'abi':
+            return 'abi-tag', note('GNU', 1, struct.pack(E + 'IIII', rng.choice([0, 1, 2, 3, 4, 5]), rng.choice([2, 3, 5]), rng.randrange(40), rng.randrange(40)))
+        if k == 'gold':
+            return 'gold', note('GNU', 4, b'gold 1.' + str(rng.randrange(10, 20)).encode())
+        if k == 'go':
+            return 'go', note('Go', 4, bytes(rng.getrandbits(8) for _ in range(rng.choice([4, 20, 40]))))
+        return 'foreign', note(rng.choice(['vendor', 'ACME', 'x']), rng.choice([1, 2, 3, 0x77, 0x12345]),   # owners GNU readelf has no table for
+                               bytes(rng.getrandbits(8) for _ in range(rng.choice([0, 4, 8, 24]))))
+    secs = [elfgen.Sec('.text', 1, flags=6, data=b'\x90' * 32, addr=0x1000, align=16)]
+    shape = []
+    addr = 0x2000
+    for i in range(rng.choice([1, 2, 3])):
+        n = rng.choice([1, 1, 2, 3])
+        parts = [one() for _ in range(n)]
+        data = b''.join(p[1] for p in parts)
+        secs.append(elfgen.Sec('.note.%s%d' % (parts[0][0], i), 7, flags=2, data=data, align=4, addr=addr))
+        addr += 0x100
+        shape.append([p[0] for p in parts])
+    if cls == 64 and machine in (62, 183) and rng.random() < 0.6:
+        W = 'Q'
+        props = b''
+        kinds = []
+        for j in range(rng.choice([1, 2, 3])):
+            pk = rng.choice(['stack', 'nocopy', 'feat'])
+            if pk == 'stack':
+                pd = struct.pack(E + W, rng.choice([0x1000, 0x800000]))
+                pt = 1
+            elif pk == 'nocopy':
+                pd, pt = b'', 2
+            else:
+                pt = 0xc0000002 if machine == 62 else 0xc0000000
+                pd = struct.pack(E + 'I', rng.choice([1, 2, 3]))
+            rec = struct.pack(E + 'II', pt, len(pd)) + pd
+            props += rec + b'\0' * (-len(rec) % 8)
+            kinds.append(pk)
+        secs.append(elfgen.Sec('.note.gnu.property', 7, flags=2, data=note('GNU', 5, props, 8), align=8, addr=addr))
+        shape.append(['property:' + '+'.join(kinds)])
+    img, info = elfgen.build(cls=cls, le=le, machine=machine, etype=2, sections=secs)
+    return img, dict(cls=cls, le=le, machine=machine, sections=shape)
